@@ -462,8 +462,15 @@ func (f *Filter) HashMatchAny(key [KeySize]byte, data [][]byte) (bool, error) {
 
 	b := bstream.NewBStreamReader(filterData)
 
+	// Size the index by what the filter data can actually hold (every
+	// element takes at least one bit), not by the declared N alone: N comes
+	// from the serialized filter and may be as large as 2^32-1.
+	sizeHint := uint64(f.N())
+	if maxElems := uint64(len(filterData)) * 8; sizeHint > maxElems {
+		sizeHint = maxElems
+	}
 	var (
-		values    = make(map[uint64]struct{}, f.N())
+		values    = make(map[uint64]struct{}, sizeHint)
 		lastValue uint64
 	)
 
